@@ -203,6 +203,64 @@ def ros_harness(ns, name, n, with_bhat):
     return run
 
 
+def ros_sequence_harness(ns, name, n):
+    """two consecutive Rosenbrock steps of one integration: the SAME `data` dict, the same step size, and a Jacobian callback that fills
+    and returns one preallocated buffer (its contents differ between the steps).  Each step must satisfy its stage equations with the
+    Jacobian of ITS state -- nothing remembered from the previous step may be reused on the strength of object identity."""
+    A, Gamma, b, b_hat, err_order = ns['coeffs_' + name]()
+    s = A.shape[0]
+
+    def run(c):
+        M = sx.symarray('m', (n, n)); g = sx.symarray('g', (n,)); x = sx.symarray('x', (n,))
+        Ks = [sx.symarray('k1', (n, n)), sx.symarray('k2', (n, n))]
+        tau = Sym(z3.Real('tau')); c.assume(tau.t > 0)
+        log = ns['_log']
+        buf = np.empty((n, n), dtype=object)
+        data = dict()
+        gam = frac(Gamma[0, 0])
+        for step in range(2):
+            K = Ks[step]
+            def J(y, K=K):
+                buf[...] = K; return buf
+            Kc = K.copy()
+            Ff = lambda y, Kc=Kc: Kc.dot(y) + g
+            del log[:]
+            out = ns['rosenbrock_step'](A, Gamma, b, b_hat, M, Ff, J, x, tau, data)
+            ks = [e[3] for e in log if e[0] == 'solve']
+            if len(ks) != s:
+                c.check(z3.BoolVal(False), 'number of stage solves (step %d of a sequence)' % (step + 1)); return
+            eqs = []
+            for i in range(s):
+                yi = x + tau * sum((frac(A[i, j]) * ks[j] for j in range(i)), 0 * x)
+                rhs = Kc.dot(yi) + g + tau * Kc.dot(sum((frac(Gamma[i, j]) * ks[j] for j in range(i)), 0 * x))
+                eqs.append(sx.eq_arrays((M - tau * gam * Kc).dot(ks[i]), rhs))
+            c.check(z3.And(*eqs), 'step %d of a sequence sharing `data` and a Jacobian buffer: stage equations with the Jacobian of the current state' % (step + 1))
+            x = np.asarray(out[0], dtype=object)
+        c.witness(name + ' sequence')
+    return run
+
+
+REPLAY_ROSSEQ = r'''
+import sys, json, numpy as np
+w = json.load(sys.stdin)
+from pyiga import solvers
+bad = []
+for name in w['methods']:
+    A, Gamma, b, b_hat, eo = getattr(solvers, 'coeffs_' + name)()
+    M = np.array([[2.0, 0.3], [0.1, 1.5]]); tau = 0.1
+    F = lambda y: np.array([-y[0] ** 3 + y[1], -0.5 * y[1] ** 2 - y[0]])
+    def Jfresh(y): return np.array([[-3 * y[0] ** 2, 1.0], [-1.0, -y[1]]])
+    buf = np.zeros((2, 2))
+    def Jbuf(y): buf[...] = Jfresh(y); return buf
+    xa = np.array([1.0, 0.7]); xb = xa.copy(); data = dict()
+    for step in range(3):
+        xa = solvers.rosenbrock_step(A, Gamma, b, b_hat, M, F, Jfresh, xa, tau, dict())[0]
+        xb = solvers.rosenbrock_step(A, Gamma, b, b_hat, M, F, Jbuf, xb, tau, data)[0]
+        if not np.allclose(xa, xb, rtol=1e-12, atol=1e-14): bad.append('%s: step %d with a shared data dict and a Jacobian buffer differs from independent steps by %.3g' % (name, step + 1, abs(xa - xb).max())); break
+print(json.dumps({'reproduced': bool(bad), 'bad': bad}))
+'''
+
+
 # ------------------------------------------------------------------------------------------
 def rk_order_residuals(A, b):
     """classical order conditions up to order 4 (exact rationals of the floats) -> {order: [(name, residual)]}"""
@@ -522,6 +580,14 @@ def main():
                     for cex in st.cex:
                         run.report('rosenbrock_step:%s:%s' % (name, cex['name'][:30]), '%s: %s fails' % (name, cex['name']),
                                    {'kind': 'stage', 'method': name, 'family': 'ros'}, replay_stage(name, 'ros'))
+        for name in (ROS if thorough else ROS[:2]):
+            st = sx.explore(ros_sequence_harness(ns, name, 1), timeout_ms=60000, eqs_first=True)
+            bound = {'method': name, 'n': 1, 'steps': 2, 'shared': 'data dict + Jacobian buffer'}
+            run.absorb(st, 'rosenbrock-step-sequence', bound=bound, sample={'obligation': 'rosenbrock steps are independent of remembered state', **bound})
+            for cex in st.cex:
+                rr = realbuild.run_real(REPLAY_ROSSEQ, {'methods': list(ROS)}, only=[])
+                run.report('rosenbrock_step:sequence', '%s: %s; real run: %s' % (name, cex['name'], rr['bad'][:3]), {'kind': 'rosseq'}, rr['reproduced'])
+                break
     if run.want('order'):
         order_queries(run, ns)
     if run.want('drivers'):
